@@ -133,13 +133,12 @@ Definition removable_fixed (a : avail) (x y : list dim) : bool :=
   end.
 
 (* correspondence: (availability, x, y, fired on the real rule set).
-   Result code per case: 0 = agrees with the repaired check, 1 = agrees only with the shipped (old)
-   check, 2 = agrees with neither. The harness prints only the cases with code <> 0. *)
+   Result code per case: 0 = the implementation agrees with both checks, 1 = only with the shipped (old)
+   check, 2 = only with the repaired check, 3 = with neither. Only cases with code <> 0 are printed. *)
 Definition eb_case := (avail * list dim * list dim * bool)%type.
 Definition eb_code (c : eb_case) : nat :=
   let '(a, x, y, fired) := c in
-  if Bool.eqb (removable_fixed a x y) fired then 0%nat
-  else if Bool.eqb (removable_old a x y) fired then 1%nat else 2%nat.
+  ((if Bool.eqb (removable_fixed a x y) fired then 0 else 1) + (if Bool.eqb (removable_old a x y) fired then 0 else 2))%nat.
 Fixpoint eb_report (i : nat) (cs : list eb_case) : list (nat * nat) :=
   match cs with
   | [] => []
